@@ -11,9 +11,9 @@ META = {
         level="proof",
         technique="contract-based deductive verification: class invariant + per-method pre/postconditions on the real Element methods, VCs from the AST discharged by z3/cvc5; bounded reference-model enumeration as labelled stand-in",
         level_text="Every obligation generated from the current source of Element.{__init__, set_values, set_lower_limits, set_upper_limits, set_fixed, __copy__, reset_parameter(s), get_*} is discharged for all states, all key sets and any number of keyword pairs; histories follow by induction (invariant + deterministic postconditions). set_label and Container copies are only bounded.",
-        level_note="floats as reals with +-inf constants, NaN excluded; typed arguments; set_label trusted at call sites; positional pairs proved for <=2 pairs; class defaults assumed consistent",
+        level_note="floats as reals with +-inf constants, NaN excluded; typed arguments; set_label proved separately as a data-flow contract on a string term (character classes opaque); positional pairs proved for <=2 pairs; class defaults assumed consistent",
         explanation="Class invariant + per-method contracts on the real Element methods (AST re-read every run), setters proved for the keyword form with any number of keys (loop invariant over a ghost done-set) and for 0..2 positional pairs; callers (__copy__, reset_parameter(s), __init__) checked against the callee contracts. Bounded layer: exhaustive short call sequences against a dict reference model.",
-        trusted_base=["Element.set_label (string predicates) is assumed at call sites and only checked by the bounded layer",
+        trusted_base=["str.strip / str.isascii / str.isdigit are opaque in the set_label contract (their meaning is only exercised by the bounded layer)",
                       "positional-pair form proved for <=2 pairs only (concrete unrolling of the *args loop)"],
         assumptions=COMMON_ASSUME + ["class defaults satisfy lower <= value <= upper and lower < upper (established at registration; Element.set_default_values does not re-check)",
                                      "argument values are of the documented types (TypeError prologues on ill-typed arguments are not modelled)"],
@@ -48,7 +48,7 @@ META["C05"] = dict(
     technique="data structure against an abstract view: per-method pre/postconditions and frame conditions on the real DataSet methods, VCs from the AST (dicts as domain/value arrays, numpy arrays as index windows) discharged by z3/cvc5; operation-sequence enumeration against a list-of-triples model as labelled bounded stand-in",
     level_text="For all sizes n>=1, all masks and all inputs: DataSet.__init__ (ordering branch onward), set_mask, get_mask, get_frequencies/get_impedances(masked), low_pass, high_pass and _parse satisfy view postconditions (each point's f, Z, mask stay together; descending presentation; masked/unmasked partition) and frame conditions (caller-owned dicts not modified). Histories follow by induction over the per-method postconditions. subtract_impedances, average, to_dict/JSON and duplicate are covered by the bounded layer only.",
     level_note="numpy semantics table (flip, array, enumerate, .size, .real/.imag, zip/map/complex) trusted; validation prologue of __init__ abstracted; JSON int(str(i))==i assumed; floats as reals",
-    explanation="Obligations from DataSet.{__init__ (from the ordering branch), set_mask, get_mask, get_frequencies, get_impedances, low_pass, high_pass, _parse}: view postconditions, well-formedness (mask keys = 0..n-1), frames on the caller's mask/dict, loop invariants for the key-pruning and cutoff loops. Bounded: all operation sequences of bounded length against a reference model.",
+    explanation="Obligations from DataSet.{__init__ (from the ordering branch), set_mask, get_mask, get_frequencies, get_impedances, low_pass, high_pass, _parse}: view postconditions, well-formedness (mask keys = 0..n-1), frames on the caller's mask/dict, loop invariants for the key-pruning and cutoff loops. Bounded: all operation sequences of bounded length against a reference model. DataSet.to_dict (point-by-point export, private copy of the mask, data set unchanged) and subtract_impedances (index by index) are under contract too.",
     trusted_base=["numpy semantics table of pyvc/npmodel.py"],
     assumptions=COMMON_ASSUME + ["arguments are of the documented types (the TypeError/ValueError validation prologue of DataSet.__init__ is not modelled)"],
     abstracted=["DataSet.__init__ validation prologue", "uuid4/basename/splitext are opaque"],
@@ -59,7 +59,7 @@ META["C04"] = dict(
     technique="exception-freedom and termination obligations at every raising primitive of the real Tokenizer and Parser (VCs from the AST: array windows, character codes, token kinds; loop invariants + variants; recursion by contract) discharged by z3/cvc5; exhaustive lexical-atom sequences and mutations as labelled bounded stand-in",
     level_text="Tokenizer: for every input state, every exit of main_loop either consumed at least one character (variant) or raised UnexpectedCharacter/ValueError; no `x in <str>` with x None, no IndexError/KeyError, every scanning loop terminates. Parser: every method of the recursive descent -- process (tokenise+loop, assembly), migrate, main_loop, connection (both kinds), element, parameters, subcircuit, param, param_limit -- is verified against its own contract assuming the contracts of the methods it calls: only parsing/tokenizing errors and ValueError can escape, the explicit `raise TypeError` sites are unreachable (stack items are opening brackets or nodes; sub-circuits restore the stack), keys handed to Element constructors/setters are the class's keys (no InvalidParameterKey/KeyError), and every call consumes tokens (termination of the mutual recursion). 'Accepted => well-formed circuit that simulates and re-serialises' is explored by the bounded layer.",
     level_note="characters as integer codes, tokens as kind codes; Identifier.__post_init__ and float(text) may raise ValueError (an allowed class) and are otherwise opaque; call stack unbounded (RecursionError is only visible to the bounded layer)",
-    explanation="Obligations from Tokenizer.{main_loop, identifier_or_label, number, peek, pop, consume, accept, ignore, push, process} (helpers inlined) and the Parser methods under contracts/parser.py. Bounded: every sequence of <= N lexical atoms, grammar-derived codes with single-character mutations, deep nesting.",
+    explanation="Obligations from Tokenizer.{main_loop, identifier_or_label, number, peek, pop, consume, accept, ignore, push, process} (helpers inlined) and the Parser methods under contracts/parser.py. Bounded: every sequence of <= N lexical atoms, grammar-derived codes with single-character mutations, deep nesting. Also under contract: Parser.process in three parts (string prologue with total string primitives only; tokenise + main_loop loop; assembly), Parser.parameters/param/param_limit/migrate, and every ParsingError subclass constructor of exceptions.py (total for the argument shapes of its call sites, f-strings evaluated strictly).",
     trusted_base=["string constants of the `string` module", "Token dataclasses construct without error except Identifier.__post_init__"],
     assumptions=COMMON_ASSUME,
     abstracted=["token start/end positions and text values (only kinds are tracked)", "exception message f-strings"],
@@ -91,7 +91,7 @@ META["C09"] = dict(
     technique="equivariance lemmas as postconditions on the real Kramers-Kronig building blocks (residuals, chi-square, weights, b-vector, every A-matrix column of both implementations) executed on symbolic values and discharged by the ring normaliser / z3; whole-test invariance through lstsq/pinv is a labelled bounded stand-in",
     level_text="Proved for all c>0, omega, tau, Z: residuals and chi-square are invariant under Z->cZ; the weights scale by c^-2 (c^2 for admittance); b scales by c (1/c); under f->cf with tau->tau/c every design-matrix column scales by its stated power of c. That the solver output then rescales accordingly is exact-arithmetic linear algebra which is assumed, and is exactly where the recorded numerical finding (rank truncation for |log10 c|>=4 with C/L columns) lives; the end-to-end statement is therefore bounded.",
     level_note="lstsq/pinv equivariance assumed (exact arithmetic, full column rank); real arithmetic",
-    explanation="Lemma obligations per building block and per (implementation, test, representation); bounded: perform_kramers_kronig_test under Z-scaling, f-scaling and reversal with frozen tolerances.",
+    explanation="Lemma obligations per building block and per (implementation, test, representation); bounded: perform_kramers_kronig_test under Z-scaling, f-scaling and reversal with frozen tolerances. Shared with C08: the KK producers compute the reported pseudo chi-squared with the weight of the impedance representation.",
     trusted_base=["pyvc/overload.py pointwise matrix model", "pyvc/ring.py"],
     assumptions=COMMON_ASSUME + ["numpy.linalg.lstsq / pinv are equivariant under row/column scaling (true in exact arithmetic; violated numerically by rcond truncation - known finding)"],
 )
@@ -119,7 +119,7 @@ META["C01"] = dict(
     technique="postconditions (the composition laws) on the real Series._impedance / Parallel._impedance, executed by CPython on classified array stand-ins with symbolic generic-point values, enumerating every classification of <=3 branches and every branch kind; structural contracts on Circuit.__init__ and the builder/get_impedances glue; topology enumeration as labelled bounded stand-in",
     level_text="Proved for all complex branch impedances: for every open/short/finite classification of up to three branches (elements, containers, nested connections) the real code returns the sum (series), 0 for a shorted or empty connection, and the reciprocal of the sum of reciprocals of the non-open branches (parallel); an all-open connection is itself an open branch. Arbitrary nesting follows by induction (a connection's result is classified like a branch). Circuit.__init__ yields a well-formed top-level Series for all four documented argument forms. Width >3, branches that vanish at only some frequencies, construction-route independence and array-vs-scalar evaluation are covered by the bounded layer.",
     level_note="branch arrays are classified all-open / all-short / finite-non-zero (the code's own assumption); numpy mask operations modelled by a classification-level table; element impedances are C02's subject; real arithmetic",
-    explanation="Obligations: one per classification and law; Circuit.__init__ forms; glue returns. Bounded: every topology up to a bounded number of leaves over a leaf alphabet, four construction routes, array vs scalar.",
+    explanation="Obligations: one per classification and law; Circuit.__init__ forms; glue returns. Bounded: every topology up to a bounded number of leaves over a leaf alphabet, four construction routes, array vs scalar. Shared with C03/C04: Parser.subcircuit returns connections that are new objects of the parse.",
     trusted_base=["contracts/c01.py classification-level model of where/isinf/full/zeros", "pyvc/overload.py"],
     assumptions=COMMON_ASSUME + ["a branch impedance array is open everywhere, short everywhere, or finite and non-zero everywhere"],
 )
@@ -129,7 +129,7 @@ META["C15"] = dict(
     technique="map-valued state machine with invariant (every built-in symbol stays registered with its own class) and per-operation contracts on the real registry functions, VCs from the AST discharged by z3; operation-sequence enumeration in forked interpreters as labelled bounded stand-in",
     level_text="Proved for all registry states satisfying the invariant: register_element binds exactly the new symbol, refuses (changing nothing) exactly a symbol bound to another class, and never shadows a built-in; remove_elements refuses exactly built-in classes and otherwise only removes entries of the given class; reset makes the registry equal to the built-ins and leaves no user symbol in the private table. Histories follow by induction. What _initialize_element does to class attributes (incl. the impedance/equation consistency check), the parser's longest-match behaviour and default-parameter restoration are bounded.",
     level_note="classes as opaque ids; _initialize_element and reset_default_parameter_values are opaque callees here; symbol validation strings not modelled",
-    explanation="Obligations from registry.py: reset, register_element, remove_elements. Bounded: all operation sequences of bounded length compared with a fresh-import snapshot.",
+    explanation="Obligations from registry.py: reset, register_element, remove_elements. Bounded: all operation sequences of bounded length compared with a fresh-import snapshot. get_elements: keys/values are a function of the current tables, a new dict, no module-level state written.",
     trusted_base=["pyvc symex encoding of dicts as domain/value arrays"],
     assumptions=COMMON_ASSUME + ["_initialize_element returns (symbol, Class) and does not touch the three registry tables"],
 )
@@ -139,7 +139,7 @@ META["C06"] = dict(
     technique="contracts on the pure-Python cores of file parsing (_split_sweeps: index safety, maximal monotone runs, ordered partition, termination) verified by VC generation from the real AST + z3; the file round trip through open()/pandas over the documented layout cross product is a labelled bounded stand-in",
     level_text="Proved for every table with >= 1 row: _split_sweeps never indexes out of range, every data set it builds consists of the next rows of the table, is strictly monotone in the table's direction and maximal, pairs each frequency with the impedance of the same row, and the loop terminates. Column detection, cell conversion, the instrument line parsers, pandas.read_csv and file I/O are only explored by the bounded round trip.",
     level_note="file system, pandas and float parsing/formatting are outside the verifier; DataSet construction is C05's contract",
-    explanation="Obligations from data_set.py:_split_sweeps (loop invariants for the sweep scan and the outer split loop; call-pre obligations at the DataSet constructor). Bounded: real temporary files over the documented conventions and instrument layouts.",
+    explanation="Obligations from data_set.py:_split_sweeps (loop invariants for the sweep scan and the outer split loop; call-pre obligations at the DataSet constructor). Bounded: real temporary files over the documented conventions and instrument layouts. _extract_data as a data-flow contract on uninterpreted cells (columns, text-cell conversion, sign applied once, polar conversion, row order); _detect_columns run exhaustively over the documented (finite) alias table x sign markers x letter case x unit suffix x column order.",
     trusted_base=["pyvc/npmodel.py (array/zip/map/complex)"],
     assumptions=COMMON_ASSUME,
 )
@@ -159,7 +159,7 @@ META["C16"] = dict(
     technique="contracts on the real traversal and numbering functions (loop invariants: no duplicates; ghost prefix-count function for the per-type numbering) verified by VC generation from the AST + z3; names as strings, sympy variables, fit identifiers and diagram labels over enumerated circuits are a labelled bounded stand-in",
     level_text="Proved for all element lists: _get_elements_recursive returns elements only and never the same element twice; generate_element_identifiers(running=True) numbers the j-th element j (a bijection onto 0..N-1), and running=False gives the j-th element 1 + the number of earlier elements of its type, so each type is numbered 1..count in traversal order. That every reachable element is listed, the string form of names, their uniqueness modulo user labels, and the consistent use of the identifiers in to_sympy / fitting / diagrams are checked by the bounded layer.",
     level_note="elements as opaque ids with an uninterpreted symbol_of; termination and completeness of the work-list traversal not proved; Container.generate_element_identifiers bounded only",
-    explanation="Obligations from base.py:Connection._get_elements_recursive and Connection.generate_element_identifiers (both modes). Bounded: all trees up to a bound with repeated types, label mixes, nested containers; identifiers compared across to_sympy, fit identifiers, parameter tables, CircuiTikZ.",
+    explanation="Obligations from base.py:Connection._get_elements_recursive and Connection.generate_element_identifiers (both modes). Bounded: all trees up to a bound with repeated types, label mixes, nested containers; identifiers compared across to_sympy, fit identifiers, parameter tables, CircuiTikZ. Shared obligations: _extract_parameters (fit-parameter table keyed '<symbol>_<running id>', C12) and Element.set_label (validation asked of the stored text, C14).",
     trusted_base=["pyvc symex list windows; index_of / prefix_count ghost functions with their defining axioms"],
     assumptions=COMMON_ASSUME,
 )
@@ -179,7 +179,7 @@ META["C19"] = dict(
     technique="data-flow (EUF) contracts on the real CLI command functions: run by CPython on uninterpreted option terms with recording stand-ins for the API and marker strings for tables, so that forwarding is checked argument for argument; in-process CLI runs against the API as labelled bounded stand-in",
     level_text="Proved for all option values: apply_filters calls low_pass/high_pass/set_mask with exactly the given cut-offs/indices, in order and only when requested; `parse` prints format_text(data.to_dataframe(), args) for each data set after filtering; `fit` calls fit_circuit(parse_cdc(args.circuit), data=..., method/weight/max_nfev/num_procs/timeout = the same-named options) 1+num_refinements times and prints the parameter and statistics tables of the last fit; `circuit --simulate` simulates each parsed circuit on _interpolate([max, min], num_per_decade); get_mock_data(s) is generate_mock_data(*_parse_identity(s)). _parse_identity's string handling, argparse wiring, output files and the drt command are bounded.",
     level_note="plotting and file output stand-ins; argparse itself and string parsing of mock specifiers only bounded",
-    explanation="Obligations at every recorded API call / printed string of cli/utility.py:apply_filters,get_mock_data; cli/parse.py:command; cli/fit.py:command; cli/circuit.py:simulate_spectra. Bounded: in-process pyimpspec.cli.main runs compared cell by cell with the API.",
+    explanation="Obligations at every recorded API call / printed string of cli/utility.py:apply_filters,get_mock_data; cli/parse.py:command; cli/fit.py:command; cli/circuit.py:simulate_spectra. Bounded: in-process pyimpspec.cli.main runs compared cell by cell with the API. cli/drt.py individual_plots and overlay_plot: one calculate_drt call per data set with every option forwarded argument for argument, report tables of exactly that result; cli/utility helpers write no module-level state; apply_filters specified over the three conditions themselves.",
     trusted_base=["contracts/dataflow.py", "recording stand-ins"],
     assumptions=COMMON_ASSUME + ["plot functions do not mutate results"],
 )
